@@ -1,5 +1,57 @@
 // C07 extractor: both members of every checked / unchecked pair (see ops_c07.h).
+// <math.h> first: its global `using std::cos;` declarations must not see sym.h's std::cos (Sym) overloads, otherwise the unqualified
+// `cos ((T) r)` of Matrix33::setRotation (reached through the 2-D removeScaling / sansScaling) is ambiguous with the ADL candidate.
+#include <math.h>
 #include "sym.h"
+// Exact-rational element type for the Lean-side validation of the entries that call Vec::length () opaquely: the REAL
+// Vec2/3/4<T>::length () is instantiated at T = Frac (below, natives ()[...].q), with the same fixed stubs for sqrt / min / max
+// as the evaluator of the extracted trees (extract.h Sc<Frac>) and as tools/troute.py on the Lean side.  Like the Sym
+// overloads of sym.h, these must be visible before the Imath templates are defined (qualified std:: calls).
+#include "frac.h"
+namespace symns
+{
+// Vec::length () is noexcept, so an overflow of the 128-bit fractions must not throw inside it: FracS records it in a sticky
+// flag (the result is then discarded by the caller, which throws FracOverflow outside the noexcept function)
+struct FracS
+{
+    Frac v;
+    FracS () {}
+    FracS (int x) : v (x) {}
+    FracS (Frac x) : v (x) {}
+    static bool& overflowed () { static bool b = false; return b; }
+    template <class F> static FracS guard (F f) { try { return FracS (f ()); } catch (const FracOverflow&) { overflowed () = true; return FracS (); } }
+    template <class F> static bool guardB (F f) { try { return f (); } catch (const FracOverflow&) { overflowed () = true; return false; } }
+};
+inline FracS operator+ (FracS a, FracS b) { return FracS::guard ([&] { return a.v + b.v; }); }
+inline FracS operator- (FracS a, FracS b) { return FracS::guard ([&] { return a.v - b.v; }); }
+inline FracS operator* (FracS a, FracS b) { return FracS::guard ([&] { return a.v * b.v; }); }
+inline FracS operator/ (FracS a, FracS b) { return FracS::guard ([&] { return a.v / b.v; }); }
+inline FracS operator- (FracS a) { return FracS (-a.v); }
+inline FracS& operator+= (FracS& a, FracS b) { a = a + b; return a; }
+inline FracS& operator-= (FracS& a, FracS b) { a = a - b; return a; }
+inline FracS& operator*= (FracS& a, FracS b) { a = a * b; return a; }
+inline FracS& operator/= (FracS& a, FracS b) { a = a / b; return a; }
+inline bool operator< (FracS a, FracS b) { return FracS::guardB ([&] { return a.v < b.v; }); }
+inline bool operator> (FracS a, FracS b) { return b < a; }
+inline bool operator<= (FracS a, FracS b) { return !(b < a); }
+inline bool operator>= (FracS a, FracS b) { return !(a < b); }
+inline bool operator== (FracS a, FracS b) { return a.v == b.v; }
+inline bool operator!= (FracS a, FracS b) { return !(a.v == b.v); }
+}
+namespace std
+{
+inline symns::FracS sqrt (symns::FracS a) { return symns::FracS::guard ([&] { return symns::stub1 (0, a.v); }); }
+inline symns::FracS abs (symns::FracS a) { return a < symns::FracS (0) ? -a : a; }
+template <> class numeric_limits<symns::FracS>
+{
+public:
+    static constexpr bool is_specialized = true;
+    static constexpr bool is_signed      = true;
+    static constexpr bool is_integer     = false;
+    static symns::FracS min () { return symns::FracS (symns::Frac (1, 1024)); }
+    static symns::FracS max () { return symns::FracS (symns::Frac (1048576, 1)); }
+};
+}
 #include "shapes.h"
 #include "main.h"
 #include <ImathMatrixAlgo.h>
@@ -7,6 +59,22 @@
 OPAQUE_LENGTH (Vec2, "V2", 2)
 OPAQUE_LENGTH (Vec3, "V3", 3)
 OPAQUE_LENGTH (Vec4, "V4", 4)
+template <class V> static std::vector<symns::Frac> fracLength (const std::vector<symns::Frac>& a)
+{
+    V v;
+    for (size_t i = 0; i < a.size (); ++i) v[(int) i] = symns::FracS (a[i]);
+    symns::FracS::overflowed () = false;
+    symns::FracS l = v.length ();
+    if (symns::FracS::overflowed ()) throw symns::FracOverflow ();
+    return {l.v};
+}
+static int fracLengths = [] {
+    using symns::FracS;
+    symns::natives ()["V2.length"].q = fracLength<IMATH_INTERNAL_NAMESPACE::Vec2<FracS>>;
+    symns::natives ()["V3.length"].q = fracLength<IMATH_INTERNAL_NAMESPACE::Vec3<FracS>>;
+    symns::natives ()["V4.length"].q = fracLength<IMATH_INTERNAL_NAMESPACE::Vec4<FracS>>;
+    return 0;
+}();
 
 // Matrix44<Sym>::gjInverse is opaque: its tree is far too large to enumerate, and Matrix44::inverse /
 // invert only forward to it on the non-affine arm.  The callee is a PARAMETER of the emitted Lean
@@ -58,6 +126,23 @@ template <class S> std::vector<S> gj44Native (const std::vector<S>& a, int which
     for (int i = 0; i < 4; ++i) for (int j = 0; j < 4; ++j) o.push_back (r[i][j]);
     return o;
 }
+// Lean-side validation (rattv): the four parameter functions are fixed rational stubs, DIFFERENT from one another and not
+// symmetric in the slots, the same as GJ_STUBS in tools/props/c07.py: what is validated is the emitted text around the
+// calls (which parameter is called where, on which argument), not Gauss-Jordan.
+//   gj44 (m)[i]        = m[(5 i + 3) mod 16] * (i + 2) / 3 + m[i] + (i + 1) / 7
+//   gj44F (m)[i]       = m[(3 i + 1) mod 16] * (i + 1) / 5 - m[i] + (i + 2) / 3
+//   gj44Tvalue (m)[i]  = m[(7 i + 2) mod 16] * (i + 3) / 2 + m[15 - i] + (i + 1) / 11
+//   gj44Tstatus (m)    = 1 if m[0] + 2 m[5] - m[10] + m[15] > 1/2 else 0
+inline std::vector<Frac> gj44Stub (const std::vector<Frac>& m, int which)
+{
+    if (which == 2) return {(m[0] + Frac (2) * m[5] - m[10] + m[15] > Frac (1, 2)) ? Frac (1) : Frac (0)};
+    std::vector<Frac> o;
+    for (int i = 0; i < 16; ++i)
+        o.push_back (which == 0   ? m[(5 * i + 3) % 16] * Frac (i + 2, 3) + m[i] + Frac (i + 1, 7)
+                     : which == 1 ? m[(3 * i + 1) % 16] * Frac (i + 1, 5) - m[i] + Frac (i + 2, 3)
+                                  : m[(7 * i + 2) % 16] * Frac (i + 3, 2) + m[15 - i] + Frac (i + 1, 11));
+    return o;
+}
 static int regGJ44 = [] {
     const char* names[] = {"gj44", "gj44F", "gj44Tstatus", "gj44Tvalue"};
     for (int w = 0; w < 4; ++w)
@@ -69,7 +154,8 @@ static int regGJ44 = [] {
         fnIndex ()[names[w]] = r;
         paramFns ()[names[w]] = w == 2 ? "M44 α → α" : "M44 α → M44 α";
         natives ()[names[w]] = Native{[w] (const std::vector<double>& a) { return gj44Native<double> (a, w); },
-                                      [w] (const std::vector<float>& a) { return gj44Native<float> (a, w); }};
+                                      [w] (const std::vector<float>& a) { return gj44Native<float> (a, w); },
+                                      [w] (const std::vector<Frac>& a) { return gj44Stub (a, w); }};
     }
     return 0;
 }();
